@@ -197,6 +197,24 @@ def form_lines(st):
         # a top-level module next to the package: importable only while the directory
         # xdoctest adds temporarily is (still) on sys.path
         return _L("try:", "    import simsibling", "    S.emit('%s')" % p[0], "except ImportError:", "    S.emit('%s')" % p[1])
+    if f == 'annot':
+        # an annotation is an expression: evaluating it when the function is defined is part of the program
+        return _L("def sim_an%d(sim_x: S.op('%s') = None):" % (i, p[0]), "    return sim_x")
+    if f == 'futureimport':
+        # this doctest's own compile-time switch (belongs to this doctest only)
+        return _L("from __future__ import annotations")
+    if f == 'emitcr':
+        # a progress-style line: carriage return before the line feed
+        return _L("S.emitcr('%s')" % p[0])
+    if f == 'strsemi':
+        # semicolons that are not statement separators: inside a string and a comment
+        return _L("sim_ss%d = 'a; b'  # c; d" % i)
+    if f == 'keepglobal':
+        # leaves a reference to the stream it finds in sys.stdout in a long-lived object of the code under test
+        return _L("S.keepstream(sys.stdout, '%s')" % p[0])
+    if f == 'writekept':
+        # ... through which some later code writes (a logging handler does both)
+        return _L("S.writekept('%s')" % p[0])
     if f == 'keepout':
         # the code under test remembers the stream it finds in sys.stdout ...
         return _L("_out%d = sys.stdout" % i)
@@ -232,6 +250,10 @@ def form_out(st):
         return [st.get('text', 'ok') + '\n']
     if f == 'emitnoeol':
         return [tok(p[0])]
+    if f == 'emitcr':
+        # (a want quotes the line without the carriage return: whitespace normalisation,
+        # on by default, makes the two equal; what is *recorded* keeps the \r)
+        return [tok(p[0]) + '\n']
     if f == 'bgtask':
         return [tok(p[1]) + '\n']
     if f in ('for', 'try', 'semiemit'):
@@ -249,7 +271,7 @@ def form_out(st):
     return []
 
 
-EXPR_FORMS = {'expr', 'print', 'emit', 'emitnoeol', 'coroexpr', 'reprexpr', 'sayval', 'modsay', 'say', 'multiline', 'semiemit', 'tqprint', 'callhelper_expr', 'callhelper_emit',
+EXPR_FORMS = {'expr', 'print', 'emit', 'emitnoeol', 'emitcr', 'keepglobal', 'writekept', 'coroexpr', 'reprexpr', 'sayval', 'modsay', 'say', 'multiline', 'semiemit', 'tqprint', 'callhelper_expr', 'callhelper_emit',
               'callmod_expr', 'awaitexpr', 'awaitprint', 'names', 'emitop'}
 VALUE_FORMS = {'expr': 0, 'multiline': 0, 'callhelper_expr': 0, 'callmod_expr': 0, 'awaitexpr': 0, 'emitop': 0, 'reprexpr': 0}
 NOCODE_FORMS = {'comment', 'directive', 'blankprompt'}
@@ -452,8 +474,13 @@ def render_doctest(dt, indent, out, lineno0, env=None, defaults=None):
         inline = directive_text(st['inline']) if st.get('inline') else None
         first_line = lineno0 + len(out)
         n = len(lines)
+        if inline and st.get('inline_at') == 'own' and st['form'] in ('multiline', 'multicall') and n >= 3:
+            # the directive on a comment line of its own inside the brackets: still this statement's
+            lines = lines[:1] + [('    # %s: %s' % (directive_spelling(st), inline), True)] + lines[1:]
+            n = len(lines)
+            inline = None
         for j, (text, prefixed) in enumerate(lines):
-            if inline and ((st.get('inline_at', 'last') == 'last' and j == n - 1) or
+            if inline and ((st.get('inline_at', 'last') in ('last', 'own') and j == n - 1) or
                            (st.get('inline_at') == 'first' and j == 0)):
                 text = text + '  # %s: ' % directive_spelling(st) + inline
             if not prefixed:
